@@ -102,7 +102,23 @@ def _library(recipe):
 def _build(recipe):
     if "library" in recipe:
         return _library(recipe)
-    return gm.build(recipe), recipe
+    mdg = gm.build(recipe)
+    o = gm.origin(recipe)
+    if np.any(o != 0):
+        # the network oracle works in coordinates relative to the lower corner of the
+        # domain: move the meshed grids back by the offset (geometry is recomputed by
+        # the code under test; a host that does not cover [o, o + L] stays visible)
+        for g in mdg.subdomains():
+            g.nodes = g.nodes - o.reshape(3, 1)
+            if g.dim == 0:
+                g.cell_centers = g.cell_centers - o.reshape(3, 1)
+        for intf in mdg.interfaces():
+            for sg in intf.side_grids.values():
+                sg.nodes = sg.nodes - o.reshape(3, 1)
+                if sg.dim == 0:
+                    sg.cell_centers = sg.cell_centers - o.reshape(3, 1)
+        mdg.compute_geometry()
+    return mdg, recipe
 
 
 def _classes(geo):
@@ -132,6 +148,9 @@ def check(case, mon):
     mon.count("networks_checked")
     lab = recipe.get("library", f"{recipe.get('mesh')}")
     mon.klass(f"{top}d-{lab}-{net.n}frac")
+    if recipe.get("origin") is not None:
+        mon.klass("offset-domain")
+        mon.count("offset_domains")
     for c in _classes(geo):
         mon.count(f"class:{c}")
     mon.nontrivial(len(mdg.interfaces()) >= 1)
@@ -374,11 +393,21 @@ def generate(rng, tier, i):
             r["n"] = [2 * v for v in r["domain"]]
     else:
         r = gm.random_3d(rng, "simplex", max_fracs=2)
+    if rng.random() < 0.3:
+        # domain whose lower corner is not the origin (integer or half-integer offset,
+        # positive or negative)
+        r["origin"] = [float(v) for v in rng.integers(-4, 5, size=r["dim"]) / 2.0]
     return {"recipe": r}
 
 
 def floor(tier):
     out = [{"recipe": r} for r in gm.floor_recipes()]
+    # offset domains (lower corner not in the origin)
+    for k, r in enumerate(gm.floor_recipes()):
+        if k % 3 == 1 or r["dim"] == 3 and len(r["fractures"]) == 1:
+            r = dict(r)
+            r["origin"] = [1.0, 2.0, -1.5][:r["dim"]]
+            out.append({"recipe": r})
     out += [
         # three fractures through one lattice point, one of them ending there
         {"recipe": {"dim": 2, "mesh": "simplex", "domain": [4, 4], "h": 1.0,
